@@ -82,6 +82,7 @@ gboolean g_type_check_value_holds (const GValue *value, GType type); gboolean g_
 GType g_type_register_static_simple (GType parent_type, const gchar *type_name, guint class_size, GClassInitFunc class_init, guint instance_size, GInstanceInitFunc instance_init, GTypeFlags flags);
 gint g_type_add_instance_private (GType class_type, gsize private_size); void g_type_class_adjust_private_offset (gpointer g_class, gint *private_size_or_offset);
 GType g_boxed_type_register_static (const gchar *name, GBoxedCopyFunc boxed_copy, GBoxedFreeFunc boxed_free);
+GType g_pointer_type_register_static (const gchar *name);
 #define G_TYPE_FUNDAMENTAL(type) (g_type_fundamental (type))
 #define G_TYPE_IS_ABSTRACT(type) (g_type_test_flags ((type), G_TYPE_FLAG_ABSTRACT))
 #define G_TYPE_IS_FINAL(type) (g_type_test_flags ((type), G_TYPE_FLAG_FINAL))
